@@ -9,7 +9,7 @@ import numpy as np
 from props import c01 as base
 
 RULE = ('k-medoids / k-hybrid runs (function and estimator forms, _kmedoids_pam_update chains) on the C01 '
-        'generators (table metric incl. asymmetric / tie-heavy tables, euclidean/manhattan on small-integer '
+        'generators incl. the large-n family (n 257..600 and >65536, centers at indices >= 256/65536, k>255; oracle only) (table metric incl. asymmetric / tie-heavy tables, euclidean/manhattan on small-integer '
         'grids, n 2..40, k 1..n, 1..6 sweeps, explicit proposals incl. foreign clusters / current centers / '
         'other centers, recorded random proposals, int seeds, cold and warm starts from independently built '
         'Consistent states with non-first tie-breaks); each run is repeated with 0..T sweeps to obtain the '
@@ -163,13 +163,15 @@ def run(ctx):
             cases.append(gen_case(rng))
         for _ in range(ctx.n(20, 400)):
             cases.append(gen_case(rng, nmax=40))
+        # large-n family (frame indices / labels beyond the narrow integer types; oracle only)
+        cases += [c for c in base.large_family(ctx) if c['kind'] in KINDS]
         for c in base.tiny_tables(ctx, 3):
             cases.append(c)
         for c in base.tiny_tables(ctx, 4, limit=ctx.n(40, 100000)):
             cases.append(c)
         base.check_cases(ctx, cases, area='C09', extra=extra)
         need = ['pam-branch-dn', 'pam-branch-other', 'pam-branch-this', 'pam-accept', 'pam-reject',
-                'cost-decreased', 'cost-unchanged', 'hybrid<=kcenters', 'warm-start-cost<=', 'model-agrees',
+                'cost-decreased', 'cost-unchanged', 'hybrid<=kcenters', 'warm-start-cost<=', 'model-agrees', 'large-n', 'center-index>=256', 'k>255', 'n>65536',
                 'sweep-by-sweep-agrees', 'reproducible']
         ctx.note('under_covered', [t for t in need if not ctx.tags.get(t)])
 
